@@ -300,6 +300,10 @@ def _match_known(known, o):
             sig = k.get("witness_signature")
             if sig is None:
                 return k
+            if isinstance(o.get("args"), dict) and "difference" in o["args"]:
+                if o["args"]["difference"] == sig:
+                    return k
+                continue
             rep = (o.get("replay") or {})
             if sig in json.dumps(o.get("args"), default=str) or sig in str(rep.get("detail", "")):
                 return k
